@@ -37,6 +37,15 @@ def cc(name, *a):
 ONE = ("cplx", num(1), num(0))
 
 
+def unfold(t):
+    """arg(z) and atan2(Im z, Re z) are the same thing (principal/arg decides that): compare with arg() unfolded."""
+    if not isinstance(t, tuple):
+        return t
+    if len(t) == 3 and t[0] == "ccall" and t[1] == "%s::arg" % CF and t[2] == SELF:
+        return fn_("atan2", Y, X)
+    return tuple(unfold(x) if isinstance(x, tuple) else x for x in t)
+
+
 def run(rep, pdb, tier):
     def body_of(name):
         fn = pdb.fn("%s::%s" % (CF, name))
@@ -53,7 +62,7 @@ def run(rep, pdb, tier):
         if fn is None:
             rep.missing(key, rule, "function %s::%s not found" % (CF, name))
             return
-        ok = got is not None and got[0] != "error" and sign_norm(got) == sign_norm(want)
+        ok = got is not None and got[0] != "error" and sign_norm(unfold(got)) == sign_norm(unfold(want))
         rep.add(key, rule, ok, fn["body"], "extracted: %s" % ((show_tree(got) if got is not None and got[0] != "error" else repr(got)),), where=loc(fn["body"]))
 
     r1 = "the body equals the closed form in real functions of (x, y), modulo commutativity of + and * and sign placement"
